@@ -154,6 +154,23 @@ func init() {
 	})
 }
 
+func init() {
+	props = append(props, prop{
+		ID: "C18", Title: "every writer/reader pair round-trips", Level: "exploration",
+		LevelText:  "Round-trip, differential and fixpoint oracles over generated values: replicated messages through 'p'+protobuf and legacy JSON with the id defaulting to the raft index only when absent, ProtoMessage against CopyToProtoMessage into a reused destination, raft log entries through every writer of the store against GetLog and raftlog.FromBytes, output batches through the hand-written codec; the readers that are inlined in package main (Snapshot, decodeProtobuf, the text-log dump) are compared in the package main unit.",
+		LevelNote:  "Strings are valid UTF-8 (protobuf strings must be); recipient maps are true-valued as every producer writes them.",
+		Technique:  "property-based testing (rapid): round-trip / differential / fixpoint oracles; native fuzzing of the decoders in the thorough tier",
+		DesignRef:  "4/C18",
+		Rule:       "messages: all 9 types, zero/small/random/max integers, texts from empty to 2.4 kB incl. control and multi-byte characters, 0-3 servers, non-trivial = >=3 non-zero optional fields; batches: 0-5 messages with 0-5 recipients, non-trivial = >=2 messages and one with >=2 recipients; log entries: all log types through all three writers in both modes, non-trivial = >=3 of term/extensions/append time/data/type non-zero; distinct = hash of the value",
+		Assumptions: []string{"text fields are valid UTF-8"},
+		Units: []unit{
+			{Name: "messages", Pkg: "internal/robust", Harness: "robust", Run: "^TestVerifC18Messages$", Rapid: true, Quick: 60000, Thorough: 3000000, QuickTimeoutS: 600, ThoroughTimeoutS: 3000},
+			{Name: "batches", Pkg: "internal/outputstream", Harness: "outputstream", Run: "^TestVerifC18Batches$", Rapid: true, Quick: 60000, Thorough: 3000000, QuickTimeoutS: 600, ThoroughTimeoutS: 3000},
+			{Name: "logentries", Pkg: "internal/raftstore", Harness: "raftstore", Run: "^TestVerifC18LogEntries$", Rapid: true, Quick: 3000, Thorough: 60000, QuickTimeoutS: 600, ThoroughTimeoutS: 3000},
+		},
+	})
+}
+
 // notApplicable lists properties that are not claimed (yet), with the reason.
 var notApplicable = map[string]string{}
 
